@@ -76,6 +76,12 @@ UClasses ==
    DR   |-> [Cls("dataclass", << FD("a", TInt, DInt(0)), FD("b", TInt, DInt(0)), FD("c", TInt, DInt(0)) >>)
                EXCEPT !.depreq = << <<"a", <<"b">> >> >>],
    REC  |-> Cls("dataclass", << F("a", TInt), FD("c", TOpt(TObj("REC")), DNull) >>),
+   \* a subclass RE-ANNOTATES an inherited field (int -> str): the subclass's annotation is the one that counts
+   BA   |-> Cls("dataclass", << F("x", TInt) >>),
+   SB   |-> [Cls("dataclass", << F("x", TStr), FD("y", TInt, DInt(0)) >>) EXCEPT !.bases = <<"BA">>],
+   \* the schema metadata wrapped AROUND the Optional / Undefined union of a field
+   AO   |-> Cls("dataclass", << F("a", TInt), FD("o", TAnnot(TOpt(TInt), << <<"min", 0>> >>), DNull),
+                                FD("u", TAnnot(TUnion(<<TInt, TUndef>>), << <<"max", 9>> >>), VUndef) >>),
    \* a constraint carried by the REFERENCE to the recursive class (field metadata)
    RC   |-> Cls("dataclass", << F("a", TInt), [FD("c", TOpt(TObj("RC")), DNull) EXCEPT !.cons = << <<"min_props", 2>> >>] >>),
    MA   |-> Cls("dataclass", << F("a", TInt), FD("b", TOpt(TObj("MB")), DNull) >>),
@@ -135,7 +141,7 @@ UAliasers ==
                 <<"l", "L">>, <<"s", "S">>, <<"x", "X">>, <<"z", "Z">>, <<"o", "O">>, <<"p", "P">>,
                 <<"f", "F">>, <<"w", "W">>, <<"t", "T">>, <<"u", "U">>, <<"type", "TYPE">>, <<"kind", "KIND">>,
                 <<"m1", "M1">>, <<"mm", "MM">>, <<"m3", "M3">>, <<"m4", "M4">>, <<"n", "N">>, <<"knd", "KND">>,
-                <<"Foo", "FOO">>, <<"bar", "BAR">>, <<"foo", "FOO2">>, <<"r", "R">>, <<"zz", "ZZ">>, <<"back", "BACK">>, <<"q", "Q">> >>]
+                <<"Foo", "FOO">>, <<"bar", "BAR">>, <<"foo", "FOO2">>, <<"r", "R">>, <<"zz", "ZZ">>, <<"back", "BACK">>, <<"q", "Q">>, <<"y", "Y">> >>]
 
 Opt(addl, fbd, coerce, ali) == [addl |-> addl, fbd |-> fbd, coerce |-> coerce, ali |-> UAliasers[ali], aliname |-> ali,
                                 impl |-> FALSE, dev |-> {}, setuniq |-> FALSE]
@@ -168,7 +174,7 @@ HashableLeaves == Leaves \ {TAny}
 SetTypes  == { TColl(c, t) : c \in {"set", "fset"}, t \in HashableLeaves \cup {TTuple(<<TInt, TStr>>)} }
           \cup { TAnnot(TColl("list", TInt), << <<"unique", TRUE>> >>) }
 MapTypes  == { TMap(TAnnot(TStr, << <<"pattern", "pa">> >>), TInt), TMap(TLit(<<DStr("a"), DStr("b")>>), TInt),
-               TMap(TEnum("ES"), TInt), TAnnot(TMap(TStr, TInt), << <<"min_props", 1>>, <<"max_props", 1>> >>) }
+               TMap(TEnum("ES"), TInt), TMap(TEnum("ES"), TFloat), TAnnot(TMap(TStr, TInt), << <<"min_props", 1>>, <<"max_props", 1>> >>) }
 ObjTypes  == { TObj(c) : c \in ObjClasses }
 \* unions with an alternative marked Unsupported: `alts` are the alternatives apischema sees (all the
 \* semantics read them only), `uns` the <<position in the declaration, type>> of the ignored ones,
@@ -185,6 +191,9 @@ UnionTypes == { TUnion(<<TInt, TFloat>>), TUnion(<<TFloat, TInt>>), TUnion(<<TIn
                 TUnion(<<TUnion(<<TInt, TStr>>), TNone>>),
                 TUnion(<<TAnnot(TInt, << <<"min", 2>> >>), TAnnot(TInt, << <<"max", -2>> >>)>>) }
               \cup UnsUnions
+              \* constraints carried by the union itself (alternatives of pairwise distinct JSON types: by-type dispatch)
+              \cup { TAnnot(TUnion(<<TInt, TStr>>), << <<"min", 0>>, <<"max_len", 1>> >>),
+                     TAnnot(TUnion(<<TFloat, TStr, TNone>>), << <<"max", 2>> >>) }
 
 
 DUnionTypes == { TDUnion(<<TObj("P1"), TObj("P2")>>, "kind", << <<"P1">>, <<"P2">> >>, "default"),
@@ -277,6 +286,9 @@ Cand(ctx, T, n) ==
          SmallAtoms \cup {DArr(<<>>)} \cup {DArr(<<x>>) : x \in sub(T.e)}
                     \cup {DArr(<<x, y>>) : x \in sub(T.e), y \in sub(T.e)}
                     \cup {DArr(<<x, x, x>>) : x \in PickSome(ValidAtoms(ctx, T.e), 1)}
+                    \* twelve elements, rejected ones at indices 2 and 10 (the order of the error list compares 2 and 10)
+                    \cup {DArr([i \in 1..12 |-> IF i \in {3, 11} THEN y ELSE x]) :
+                             x \in PickSome(ValidAtoms(ctx, T.e), 1), y \in PickSome(InvalidAtoms(ctx, T.e), 1)}
     [] T.k = "tuple"   ->
          SmallAtoms \cup {DArr(<<>>)}
            \cup (IF Len(T.es) = 1 THEN {DArr(<<x>>) : x \in sub(T.es[1])} \cup {DArr(<<x, x>>) : x \in sub(T.es[1])}
